@@ -199,7 +199,26 @@ def run(ck, prog):
     ck.ob("R15.6", "lookup-by-name", ok, "process_if looks the macro up by the text of the token it just read",
           msg="process_if no longer consults the macro set with the directive's own macro name")
     enabled_unterminated(ck, prog)
+    disabled_text_silent(ck, prog)
     open_counter_table(ck, prog)
+
+
+def disabled_text_silent(ck, prog):
+    """R15.9: lexical errors of disabled text are never reported: the parser asks the token stream for a pending message
+    only when the token it saves is an Error token, and only from there"""
+    from .c02 import save_guard, PB, TS
+    ck.rule("R15.9", "a pending lexical message becomes a diagnostic only for a delivered Error token")
+    save_guard(ck, prog, "R15.9")
+    callers = set()
+    for p_, b_ in prog.bodies.items():
+        for i, t in b_.calls():
+            if (Body.callee(t) or "") == TS + "take_error" or (t["f"].get("decl") or "") == TS + "take_error":
+                callers.add(p_)
+    want = {PB + "save", "<syntax::preprocessor::PreProcessor<T> as syntax::token_stream::TokenStream>::take_error"}
+    extra = {c for c in callers - want if not c.startswith(("tablegen_parse", "dump"))}
+    ck.ob("R15.9", "take_error-callers", not extra and (PB + "save") in callers,
+          "take_error is called only from ParserBase::save and the preprocessor's delegation",
+          msg="take_error has unexpected callers %s: a message left by text in a disabled region can surface as a diagnostic" % sorted(extra))
 
 
 def enabled_unterminated(ck, prog):
